@@ -131,6 +131,8 @@ func stakingAlphabet() []Choice {
 		txB("stake(k2,min-1)", chain.TxSpec{Msg: "stake", From: 2, Amount: min - 1}),
 		txB("stake(k2,10min)", chain.TxSpec{Msg: "stake", From: 2, Amount: 10 * min}),
 		txB("stake(k0,min)", chain.TxSpec{Msg: "stake", From: 0, Amount: min}),
+		txB("stake(k0,2min) its genesis stake again", chain.TxSpec{Msg: "stake", From: 0, Amount: 2 * min}),
+		evB("burn(k0,0.9)", chain.Event{Kind: "burn", Who: 0, Sev: "0.9"}),
 		txB("unstake(k2)", chain.TxSpec{Msg: "unstake", From: 2}),
 		txB("unstake(k0)", chain.TxSpec{Msg: "unstake", From: 0}),
 		txB("unjail(k0)", chain.TxSpec{Msg: "unjail", From: 0}),
@@ -413,6 +415,8 @@ func statePreludes() map[string][]chain.Block {
 		"k0-unstaking":        {{Events: []chain.Event{txE(chain.TxSpec{Msg: "unstake", From: 0})}}},
 		"k0-tombstoned":       {{}, ev0},
 		"k0-unstaking-jailed": {{Events: []chain.Event{txE(chain.TxSpec{Msg: "unstake", From: 0})}}, {Missed: []int{0}}, {Missed: []int{0}}},
+		// k0's power has changed once while it was in the set (2 -> 1)
+		"k0-slashed-half": {{Events: []chain.Event{{Kind: "burn", Who: 0, Sev: "0.5"}}}, {}},
 		"k2-joined-k0-jailed": {{Events: []chain.Event{txE(chain.TxSpec{Msg: "stake", From: 2, Amount: 2 * min})}}, {Missed: []int{0}}, {Missed: []int{0}}},
 	}
 }
@@ -456,7 +460,7 @@ func posScenarios(id, tier string) []Scenario {
 	case "C05":
 		k, d := kd(2, 4, 3, 4)
 		k2, d2 := kd(2, 3, 3, 4)
-		return fromStates([]Scenario{
+		return fromStates(fromStates([]Scenario{
 			{Name: "2val", Cfg: baseCfg(), Alphabet: richAlphabet(), K: k2, D: d2, Tail: 1},
 			{Name: "3val-equal-max2", Cfg: cfg3equal(), Alphabet: setAlphabet(), K: k, D: d, Tail: 1},
 			{Name: "4val-ordered-max3", Cfg: cfg4ordered(), Alphabet: setAlphabet(), K: k, D: d, Tail: 1},
@@ -464,7 +468,7 @@ func posScenarios(id, tier string) []Scenario {
 			{Name: "4val-big-powers-max3", Cfg: cfg4big(), Alphabet: setAlphabetU(64 * min), K: k2, D: d2, Tail: 1},
 			{Name: "3val-minstake3-max2", Cfg: cfgMinStake3(), Alphabet: setAlphabet(), K: k2, D: d2, Tail: 1},
 			{Name: "3val-jail-fast", Cfg: cfgJailFast(), Alphabet: jailFastAlphabet(), K: k2, D: d2, Tail: 1},
-		}, bigStake(), richAlphabet(), k2, d2, "k0-jailed", "k0-unstaking", "k2-joined-k0-jailed")
+		}, bigStake(), richAlphabet(), k2, d2, "k0-jailed", "k0-unstaking", "k2-joined-k0-jailed"), baseCfg(), stakingAlphabet(), k2, d2, "k0-slashed-half")
 	case "C06":
 		k, d := kd(3, 4, 4, 5)
 		k2, d2 := kd(2, 4, 3, 4)
